@@ -20,7 +20,7 @@ def run(rep, tier, seed, replay):
     pr = vlib.prove(rep, PROP)
     vlib.prepare_runners()
     rc = [json.load(open(replay))["case"]["line"]] if replay else None
-    res = differential(rep, PROP, "c04", seed, 80 if tier == "quick" else 2500, tier, replay_cases=rc)
+    res = differential(rep, PROP, "c04", seed, 80 if tier == "quick" else 1800, tier, replay_cases=rc)
     cases, impl, model = res["cases"], res["impl"], res["models"]["c04"]
     mm = vlib.diff_lines(impl, model)
     add_corr(rep, "Client programs with migrations and failovers: replies, final data, executions per request vs the model", res, mm,
